@@ -643,3 +643,22 @@ M('c06d-filter-swallows-response-marker', 'C06', 'break', UT,
 M('c06d-filter-reordered-keep', 'C06', 'keep', UT,
   'htp_status_t htp_res_run_hook_body_data(htp_connp_t *connp, htp_tx_data_t *d) {\n    // Do not invoke callbacks with an empty data chunk.\n    if ((d->data != NULL) && (d->len == 0)) return HTP_OK;',
   'htp_status_t htp_res_run_hook_body_data(htp_connp_t *connp, htp_tx_data_t *d) {\n    // Do not invoke callbacks with an empty data chunk.\n    if ((d->len == 0) && (d->data != NULL)) return HTP_OK;')
+
+# ---------------- C02
+RG, SG = 'htp/htp_request_generic.c', 'htp/htp_response_generic.c'
+M('c02a-protocol-from-literal', 'C02', 'break', RG,
+  '    tx->request_protocol = bstr_dup_mem(data + pos, len - pos);', '    tx->request_protocol = bstr_dup_c("HTTP/1.1");', 'C02.a')
+M('c02b-status-one-byte-short', 'C02', 'break', SG,
+  '    tx->response_status = bstr_dup_mem(data + start, pos - start);', '    tx->response_status = bstr_dup_mem(data + start, pos - start - 1);', 'C02.b')
+M('c02b-header-value-starts-late', 'C02', 'break', RG,
+  '    h->value = bstr_dup_mem(data + value_start, value_end - value_start);', '    h->value = bstr_dup_mem(data + value_start + 2, value_end - value_start - 2);', 'C02.b')
+M('c02b-method-slice-rewritten-keep', 'C02', 'keep', RG,
+  '    tx->request_method = bstr_dup_mem(data + mstart, pos - mstart);', '    tx->request_method = bstr_dup_mem(&data[mstart], pos - mstart);')
+M('c02c-backward-scan-looks-one-back', 'C02', 'break', RG,
+  '        while (pos > start && htp_is_space(data[pos])) pos--;', '        while (pos > start && htp_is_space(data[pos - 1])) pos--;', 'C02.c')
+M('c02d-merge-separator-dropped', 'C02', 'break', SG,
+  '            bstr_add_mem_noex(h_existing->value, (unsigned char *) ", ", 2);\n            bstr_add_noex(h_existing->value, h->value);', '            bstr_add_noex(h_existing->value, h->value);', 'C02.d')
+M('c02d-merge-order-swapped', 'C02', 'break', RG,
+  '            bstr_add_mem_noex(h_existing->value, ", ", 2);\n            bstr_add_noex(h_existing->value, h->value);', '            bstr_add_noex(h_existing->value, h->value);\n            bstr_add_mem_noex(h_existing->value, ", ", 2);', 'C02.d')
+M('c02e-basic-auth-split-at-last-colon', 'C02', 'break', 'htp/htp_parsers.c',
+  'int i = bstr_index_of_c(decoded, ":");', 'int i = bstr_rchr(decoded, \':\');', 'C02.e')
